@@ -93,7 +93,7 @@ def _type_tests(ctx: Ctx, fi: FuncInfo) -> Set[str]:
     for n in walk_local(fi.node):
         if isinstance(n, ast.Compare) and is_type_expr(n.left):
             for c in n.comparators:
-                ok, v = try_fold(c)
+                ok, v = try_fold(c, {}, ctx.repo, fi.module)
                 if ok:
                     if isinstance(v, str):
                         out.add(v)
@@ -110,7 +110,13 @@ def _request_classes(ctx: Ctx, fi: FuncInfo) -> List[Tuple[ast.Call, str, Set[st
                 and _is_tokit(ctx, n.func.value, fi):
             names = set()
             for a in n.args:
-                ok, v = try_fold(a)
+                if isinstance(a, ast.Starred):
+                    ok, v = try_fold(a.value, {}, ctx.repo, fi.module)
+                    if not ok or not all(isinstance(x, str) for x in v):
+                        raise AnalysisError(f'token request with a non-literal class: {norm(n)}')
+                    names |= set(v)
+                    continue
+                ok, v = try_fold(a, {}, ctx.repo, fi.module)
                 if not ok or not isinstance(v, str):
                     raise AnalysisError(f'token request with a non-literal class: {norm(n)}')
                 names.add(v)
@@ -155,52 +161,113 @@ def r10(ctx: Ctx) -> RuleReport:
     return rep
 
 
+def _token_origins(ctx: Ctx, fi: FuncInfo, e: ast.AST, at: ast.AST, depth: int = 0):
+    """Token requests (accept/expect calls) whose *whole* token text can be the value of e.
+    Returns (list of (function, call), complete?) - complete is False when some source was not understood."""
+    from ..resolve import view, helper_returns
+    from ..cfg import def_value
+    out, complete = [], True
+    if depth > 8:
+        return out, False
+    if isinstance(e, ast.Constant):
+        return out, True
+    if isinstance(e, ast.IfExp):
+        for x in (e.body, e.orelse):
+            o, c = _token_origins(ctx, fi, x, at, depth + 1)
+            out += o
+            complete &= c
+        return out, complete
+    if isinstance(e, ast.BoolOp):
+        for x in e.values:
+            o, c = _token_origins(ctx, fi, x, at, depth + 1)
+            out += o
+            complete &= c
+        return out, complete
+    if isinstance(e, ast.Subscript):
+        return out, True          # a piece of a token text (the ',b' glued form / partition result): not a whole token
+    if isinstance(e, ast.Attribute) and e.attr == 'text':
+        return _token_origins(ctx, fi, e.value, at, depth + 1)
+    if isinstance(e, ast.Call):
+        if isinstance(e.func, ast.Attribute) and e.func.attr in ('accept', 'expect') and _is_tokit(ctx, e.func.value, fi):
+            return [(fi, e)], True
+        ts = ctx.cg.resolve_call(e, fi)
+        funcs = [t.func for t in ts if t.kind == 'func']
+        if len(funcs) == 1 and funcs[0].module.name == fi.module.name:
+            h = funcs[0]
+            for r in (n for n in walk_local(h.node) if isinstance(n, ast.Return) and n.value is not None):
+                o, c = _token_origins(ctx, h, r.value, r, depth + 1)
+                out += o
+                complete &= c
+            return out, complete
+        return out, False
+    if isinstance(e, ast.Name):
+        v = view(ctx, fi)
+        try:
+            here = v.node_of(at)
+        except Exception:
+            return out, False
+        defs = v.rd.get(here, {}).get(e.id)
+        if not defs:
+            return out, False
+        for d in defs:
+            if d == v.cfg.entry:
+                continue          # a parameter: the symbol token handed in by the caller (always SYMBOL-derived)
+            val = def_value(v.cfg, d, e.id)
+            if val is None:
+                nd = v.cfg.nodes[d]
+                if nd.kind == 'stmt' and isinstance(nd.ast, ast.Assign) and isinstance(nd.ast.targets[0], ast.Tuple):
+                    continue      # unpacked piece (source, comma, rest = text.partition(',')): not a whole token
+                complete = False
+                continue
+            o, c = _token_origins(ctx, fi, val, cfg_stmt(v, d), depth + 1)
+            out += o
+            complete &= c
+        return out, complete
+    return out, False
+
+
+def cfg_stmt(v, d):
+    return v.cfg.nodes[d].ast
+
+
 def _triple_target_requests(ctx: Ctx, rep: RuleReport):
     repo = ctx.repo
     cp = ctx.lex.compiled['TRIPLE_RE']
     atoms = {c for c in ('SYMBOL', 'STRING') if cp.has(c)}
     pt = repo.func('penman._parse', '_parse_triple')
     rets = [n for n in walk_local(pt.node) if isinstance(n, ast.Return) and n.value is not None]
-    tvars = set()
+    origins, complete = [], True
     for r in rets:
-        if not (isinstance(r.value, ast.Tuple) and len(r.value.elts) == 2 and isinstance(r.value.elts[1], ast.Name)):
-            raise AnalysisError('_parse_triple no longer returns (source, target) names')
-        tvars.add(r.value.elts[1].id)
-    n_sites = 0
-    from ..cfg import def_value, owner_node, reaching_defs
-    cfg = CFG(pt.node)
-    RD = reaching_defs(cfg, pt.params)
-    pm = ctx.repo.parent_map(pt.node)
-    for n in walk_local(pt.node):
-        if not (isinstance(n, ast.Assign) and len(n.targets) == 1 and isinstance(n.targets[0], ast.Name)
-                and n.targets[0].id in tvars):
+        if not (isinstance(r.value, ast.Tuple) and len(r.value.elts) == 2):
+            rep.undecided('penman._parse:_parse_triple: returns (source, target)', pt.loc(r), norm(r))
+            return
+        o, c = _token_origins(ctx, pt, r.value.elts[1], r)
+        origins += o
+        complete &= c
+    seen = set()
+    for f, call in origins:
+        if id(call) in seen:
             continue
-        tv, val = n.targets[0].id, n.value
-        # value forms: <v>.text (the whole token is the target), <v>.text[1:] (the ',b' glued form),
-        # a piece of the first SYMBOL, None
-        if not (isinstance(val, ast.Attribute) and val.attr == 'text' and isinstance(val.value, ast.Name)):
-            continue
-        v = val.value.id
-        here = owner_node(cfg, pm, n)
-        for dnode in sorted(RD.get(here, {}).get(v, ())):
-            d = def_value(cfg, dnode, v)
-            if not (isinstance(d, ast.Call) and isinstance(d.func, ast.Attribute) and d.func.attr in ('accept', 'expect')):
-                raise AnalysisError(f'_parse_triple: target token {v} is not bound by a token request: {norm(cfg.nodes[dnode].ast)[:60]}')
-            ok_names = set()
-            for a in d.args:
-                okf, s_ = try_fold(a)
+        seen.add(id(call))
+        ok_names = set()
+        for a in call.args:
+            okf, s_ = try_fold(a, {}, ctx.repo, f.module)
+            if okf and isinstance(s_, str):
+                ok_names.add(s_)
+            elif isinstance(a, ast.Starred):
+                okf, s_ = try_fold(a.value, {}, ctx.repo, f.module)
                 if okf:
-                    ok_names.add(s_)
-            n_sites += 1
-            key = f'penman._parse:_parse_triple: {tv} = {norm(val)} <- {norm(d)}'
-            missing = atoms - ok_names
-            if missing:
-                rep.violation(key, pt.loc(d), f'the target position accepts {sorted(ok_names)} but the lexing '
-                              f'pattern also has atom class(es) {sorted(missing)}, which format_triples emits')
-            else:
-                rep.ok(key, pt.loc(d))
-    if n_sites == 0:
-        raise AnalysisError('_parse_triple: no token request feeding the target was found')
+                    ok_names |= set(s_)
+        key = f'{f.module.name}:{f.qualname}: target token <- {norm(call)}'
+        missing = atoms - ok_names
+        if missing:
+            rep.violation(key, f.loc(call), f'the target position accepts {sorted(ok_names)} but the lexing '
+                          f'pattern also has atom class(es) {sorted(missing)}, which format_triples emits')
+        else:
+            rep.ok(key, f.loc(call))
+    if not origins or not complete:
+        rep.undecided('penman._parse:_parse_triple: every source of the target is a token request or a piece of the first symbol', pt.loc(),
+                      'some value that can become the target was not traced back to a token request')
 
 
 # ---------------------------------------------------------------------------------------------
@@ -288,7 +355,8 @@ def r16(ctx: Ctx) -> RuleReport:
             facts = IN.get(nid, frozenset())
             ops_here = token_ops(ctx, fi, cfg.nodes[nid])
             consuming_before = [o for o in ops_here if o[0] in ('next', 'expect', 'accept', 'pass') and o[1] is not call
-                                and (o[1].lineno, o[1].col_offset) < (call.lineno, call.col_offset)]
+                                and (o[1].lineno, o[1].col_offset) < (call.lineno, call.col_offset)
+                                and not any(x is call for x in ast.walk(o[1]))]      # arguments are evaluated before the call
             in_try = _in_try_stopiteration(pm, call)
             key = f'{fi.module.name}:{fi.qualname}: {norm(n) if isinstance(n, ast.stmt) else norm(n)}'
             if recv in facts and not consuming_before:
@@ -313,9 +381,8 @@ def r16(ctx: Ctx) -> RuleReport:
                 if _in_try_stopiteration(pm, n):
                     rep.ok(key, m.loc(n), 'inside try/except StopIteration converting to DecodeError')
                 else:
-                    cfg = CFG(m.node)
-                    from ..cfg import cond_facts, facts_at
-                    facts = facts_at(cfg, cond_facts(cfg), pm, n)
+                    from ..resolve import facts_ex
+                    facts = facts_ex(ctx, m, n)
                     if ('self._next is not None', True) in facts or ('self._next is None', False) in facts:
                         rep.ok(key, m.loc(n), 'guarded by self._next is not None')
                     else:
@@ -356,7 +423,7 @@ def r23err(ctx: Ctx) -> RuleReport:
     kws = {k.arg: k.value for k in ctor.keywords}
     for fld in ('lineno', 'offset'):
         rep.oblige(f'DecodeError receives {fld}', fld in kws and isinstance(kws[fld], ast.Name), '', where,
-                   key=f'error passes {fld}')
+                   key=f'error passes {fld}', positive=False)
     # gather assignments to lineno/offset per branch of `token is None`
     from ..cfg import cond_facts, facts_at
     cfg = CFG(fi.node)
